@@ -396,7 +396,7 @@ impl GlyphDeltas {
     // buffers, and that can be improved at the cost of a bit more complexity
     // <https://github.com/googlefonts/fontations/issues/635>
     fn pick_best_point_number_repr(deltas: &[GlyphDelta]) -> PackedPointNumbers {
-        if deltas.iter().all(|d| d.required) {
+        if deltas.iter().all(|d| d.required) || !deltas.iter().any(|d| d.required) {
             return PackedPointNumbers::All;
         }
 
